@@ -54,6 +54,6 @@ INIT InitE
 NEXT Next
 VIEW View
 ${EMIT}
-INVARIANTS TypeOK ${INV_EXTRA} Faithful AuthGate NoRequestBeforeAuth ReplyMatches Transparent StreamAligned FragInsensitive ExpectedReachable
+INVARIANTS TypeOK ${INV_EXTRA} Faithful AuthGate NoRequestBeforeAuth ReplyMatches Transparent StreamAligned FragInsensitive ExpectedReachable Progress
 PROPERTIES SuccessOnlyAfterProceed PhasesForward
 CHECK_DEADLOCK FALSE
